@@ -154,9 +154,10 @@ PROPS = {
         "engine": "srv",
         "tests": [
             {"name": "TestC13", "quick": {"checks": 10000, "shards": 3}, "thorough": {"checks": 250000, "shards": 12}},
+            {"name": "TestC13Start", "quick": {"checks": 120, "shards": 1}, "thorough": {"checks": 1500, "shards": 1}, "shrinktime": "10s"},
             {"name": "TestC13Builtin", "quick": {"checks": 2000, "shards": 3}, "thorough": {"checks": 25000, "shards": 8}},
         ],
-        "rule": "TestC13: synthetic plugins registered once through plugins.RegisterPlugin (three dual, two DHCPv4-only, two DHCPv6-only) whose behaviour is chosen by their argument (pass, modify, replace the response object, stop with response, stop with nil, setup error, nil handler); rapid draws configurations of 0..5 entries per protocol in any mix plus unknown names, built as config.Config values or (one third) written as a YAML file and read back with config.Load as main() does; plugins.LoadPlugins and one request per protocol through the capture listener are compared with an interpreter of the statement (error iff unknown name / failing setup for a configured protocol; handlers = listed plugins supporting the protocol, in order; invocation log in order, each at most once, each seeing the markers its predecessor returned and the original transaction id; stops after the first stop; the sent reply carries the markers of the response returned last; nil => nothing sent). TestC13Builtin: C01's chains and histories with every built-in handler wrapped: a nil response without stop is a violation. Non-trivial: chain of >= 2 handlers with a stop before the end or a replace (TestC13); a datagram reached the chain (TestC13Builtin). Distinct: FNV-64 of the case JSON.",
+        "rule": "TestC13: synthetic plugins registered once through plugins.RegisterPlugin (three dual, two DHCPv4-only, two DHCPv6-only) whose behaviour is chosen by their argument (pass, modify, replace the response object, stop with response, stop with nil, setup error, nil handler); rapid draws configurations of 0..5 entries per protocol in any mix plus unknown names, built as config.Config values or (one third) written as a YAML file and read back with config.Load as main() does; plugins.LoadPlugins and one request per protocol through the capture listener are compared with an interpreter of the statement (error iff unknown name / failing setup for a configured protocol; handlers = listed plugins supporting the protocol, in order; invocation log in order, each at most once, each seeing the markers its predecessor returned and the original transaction id; stops after the first stop; the sent reply carries the markers of the response returned last; nil => nothing sent). TestC13Start: the real server.Start path (LoadPlugins, 1..3 listen addresses per protocol on loopback, Serve loops, real sockets) with the same synthetic plugins; one relayed DISCOVER (answer read on 127.0.0.1:67) / one SOLICIT is sent to every listener and each must run the same chain with the same result. TestC13Builtin: C01's chains and histories with every built-in handler wrapped: a nil response without stop is a violation. Non-trivial: chain of >= 2 handlers with a stop before the end or a replace (TestC13); a datagram reached the chain (TestC13Builtin). Distinct: FNV-64 of the case JSON.",
         "assumptions": ["in the YAML path plugin names are plain lower-case identifiers (the loader folds key case) and an empty plugins list is rejected by config.Load itself (C18)"],
     },
     "C15": {
